@@ -90,6 +90,8 @@ func main() {
 		})
 	case "probe-replace":
 		probeReplace()
+	case "probe-c20b":
+		probeC20b()
 	case "probe-dslife":
 		probeDSLife()
 	case "dslife":
